@@ -181,7 +181,6 @@ type gen struct {
 	nName  int
 	feat   map[string]bool
 	retr   bool // the plan may retract (outer join, TRIGGER COUNTING)
-	noLim  bool
 }
 
 func (g *gen) alias() string { g.nAlias++; return fmt.Sprintf("r%d", g.nAlias) }
@@ -326,14 +325,7 @@ type relT struct {
 func (g *gen) baseRel(t *wtable) relT {
 	a := g.alias()
 	r := relT{sql: t.file + " " + a, baseFile: true, rows: len(t.cells)}
-	seen := map[string]int{}
 	for _, c := range t.cols {
-		seen[c.name]++
-	}
-	for _, c := range t.cols {
-		if seen[c.name] > 1 && !t.dup {
-			continue
-		}
 		r.cols = append(r.cols, qcol{ref: a + "." + c.name, t: t.ctypeOf(c), nullable: c.nullable, key: c.flav == 'k'})
 	}
 	return r
